@@ -60,6 +60,7 @@ def c03(ctx, v):
     T.r_repair(ctx, v)
     r_absent(ctx, v)
     M.r_once(ctx, v)  # the pop_*_if family removes exactly the element its predicate saw
+    M.r_assign(ctx, v)
     D.r_keymut(ctx, v, only=("k3",))
     M.r_strat(ctx, v)
 
@@ -110,6 +111,8 @@ def c04(ctx, v):
     if B:
         B.r_units(ctx, v)
         B.r_bounds(ctx, v)
+    # R-BOUNDS discharges `pos_back - pos` by the iterator invariant pos <= pos_back: that invariant is R-CURSOR's
+    I.r_cursor(ctx, v)
 
 
 def c05(ctx, v):
@@ -150,6 +153,7 @@ def c08(ctx, v):
     D.r_expose(ctx, v, DPQ)
     O.r_extreme(ctx, v, PQ, only=("pop_if",))
     O.r_extreme(ctx, v, DPQ, only=("pop_min_if", "pop_max_if"))
+    I.r_cursor(ctx, v)  # "iter_mut visits each element at most once"
 
 
 def c09(ctx, v):
@@ -174,11 +178,18 @@ def c11(ctx, v):
 
 def c12(ctx, v):
     D.r_keymut(ctx, v)
+    # edits made through the mutable accessors persist only if those accessors address the element they claim to:
+    # same position as the matching peek (R-EXTREME) and the right table with the right kind of subscript (R-UNITS)
+    O.r_extreme(ctx, v, PQ, only=("peek", "peek_mut"))
+    O.r_extreme(ctx, v, DPQ, only=("peek_min", "peek_min_mut", "peek_max", "peek_max_mut"))
+    if B:
+        B.r_units(ctx, v)
 
 
 def c13(ctx, v):
     I.r_esi(ctx, v, only_types=lambda T_: not T_.endswith("IterMut"), key_floor=4)
     I.r_wiring_all(ctx, v)
+    M.r_side(ctx, v)  # the sorted iterators consume by the queue's own pop family only
 
 
 def c14(ctx, v):
@@ -318,7 +329,8 @@ def configs_for(pid, tier):
         return ["std", "serde", "nostd"]
     if pid == "C15":
         return ["serde"]
-    return ["std"]
+    # the default build, and the build with the optional serde code (a superset: visit_seq, (de)serialize impls)
+    return ["std", "serde"]
 
 
 def run(ctx, pid, tier):
